@@ -369,6 +369,25 @@ func getTagType(v reflect.Value) (byte, reflect.Value) {
 			return TagString, v
 		}
 	}
+	if v.Kind() != reflect.Interface && v.Type().Name() != "" && v.CanInterface() {
+		// Methods declared on *T (func (v *T) MarshalNBT) are not in T's method set:
+		// look at a pointer to the value, or to a copy of it when it has no address.
+		if pt := reflect.PointerTo(v.Type()); pt.NumMethod() > v.Type().NumMethod() {
+			var pv reflect.Value
+			if v.CanAddr() {
+				pv = v.Addr()
+			} else {
+				pv = reflect.New(v.Type())
+				pv.Elem().Set(v)
+			}
+			switch u := pv.Interface().(type) {
+			case Marshaler:
+				return u.TagType(), pv
+			case encoding.TextMarshaler:
+				return TagString, pv
+			}
+		}
+	}
 
 	switch v.Kind() {
 	case reflect.Array, reflect.Slice:
